@@ -501,6 +501,11 @@ def section_relevant(prop, m):
     op = m.get('op', '') or ''
     if m['kind'] in ('desync', 'length', 'model-bad-op'):
         return True
+    if m['kind'] == 'result' and prop in ('C17', 'C19') and any(
+            (m.get(side) or '').startswith(('reject:validate', 'reject:panic')) for side in ('impl', 'model')):
+        # a message that one side refuses at the decoding / stateless-validation stage (address text,
+        # field encoding) and the other side does not: the text and wire forms are C17's and C19's subject
+        return True
     if m['kind'] == 'result':
         opk = op.split()[0] if op else ''
         sub = op.split()[1] if opk in ('tx', 'query') and len(op.split()) > 1 else ''
@@ -526,6 +531,10 @@ def concrete_failure(prop, m):
         # the model's answer to a listing is filter + page of the stored records (Props/C13, C09)
         return True
     wrongly_accepted = m.get('kind') == 'result' and (m.get('impl') or '').startswith('accept') and (m.get('model') or '').startswith('reject')
+    if prop in ('C17', 'C19') and m.get('kind') == 'result' and (m.get('impl') or '').startswith(('reject:validate', 'reject:panic')) \
+            and (m.get('model') or '').startswith('accept'):
+        # a well-formed message (the model accepts it) that the implementation cannot read back from its own text / wire form
+        return True
     if prop in ('C07', 'C08', 'C14') and wrongly_accepted:
         # accepted => authorised / admissible (Props/C07, C08, C14) holds of the model; the implementation accepted
         return True
